@@ -57,6 +57,10 @@ fn main() {
     match args[0].as_str() {
         "count-spaces" => count_spaces(),
         "form-hunt" => form_hunt(args.get(1).map(|s| s.as_str()).unwrap_or("w")),
+        "show-p" => {
+            let l: Vec<usize> = args[2].split(',').filter_map(|x| x.parse().ok()).collect();
+            println!("{}", String::from_utf8(spaces::p_program(args[1].parse().unwrap_or(3), &l, 2, false)).unwrap());
+        }
         "show-w" => show_w(args[1].parse().unwrap_or(3), &args[2]),
         "canon-info" => canon_info(&std::fs::read_to_string(&args[1]).unwrap_or_default(), args[2].as_bytes()),
         "find-level-probe" => {
@@ -486,6 +490,8 @@ pub fn form_hunt(which: &str) {
                 "w3" => { spaces::space_w_sized(&[12, 13], 3, &mut f); }
                 "s3" => { spaces::space_s(3, 0, &mut f); }
                 "s22" => { spaces::space_s(2, 2, &mut f); }
+                "p" => { spaces::space_p(false, &mut f); }
+                "pf" => { spaces::space_p(true, &mut f); }
                 "b6" => { spaces::space_b(6, &mut f); }
                 "a8" => { spaces::space_a(8, &mut f); }
                 _ => {}
@@ -524,7 +530,7 @@ pub fn form_hunt(which: &str) {
     for (k, (n, w)) in &all {
         let base = k.rsplit_once(" w").map(|x| x.0).unwrap_or(k);
         let mark = if interesting.iter().any(|f| f == base) { "*" } else { " " };
-        let ws: String = w.chars().take(300).collect();
+        let ws: String = w.chars().take(6000).collect();
         println!("{mark} {k}\t{n}\t{ws}");
     }
 }
